@@ -216,7 +216,7 @@ def r8(ctx):
     ctx.check(cb, sv, "the new rho is what the callback returns", line=st.stmt.lineno, role="rho:callback", expected="args.rho_update(...)", found=str(new_rho)[:100])
     if cb:
         cc = [c for c in calls_to(ana, sv, ana.func(S_ + "check_convergence").qualname)]
-        res = App(ana.func(S_ + "check_convergence").qualname, tuple(b.term(a) for a in cc[0].node.args)) if cc else None
+        res = b.term(cc[0].node) if cc else None
         want = (args, Attr(args, "rho")) + tuple(Idx(res, (tm.const(k),)) for k in (1, 2, 3, 4)) if res is not None else None
         ctx.check(want is not None and new_rho.args == want, sv, "the callback receives (rho, r_primal, eps_primal, r_dual, eps_dual) in that order",
                   role="rho:callback-args", expected="(args.rho, residual_primal, tolerance_primal, residual_dual, tolerance_dual)",
@@ -331,7 +331,7 @@ def r9(ctx):
     if ok:
         g = bs.guard_term(breaks[0])
         parts = g.parts if isinstance(g, And) else [g]
-        res = App(fi.qualname, tuple(bs.term(x_) for x_ in cc[0].node.args))
+        res = bs.term(cc[0].node)
         ok = any(p == Idx(res, (tm.ZERO,)) for p in parts)
         found = str(g)[:160]
     else:
